@@ -5,6 +5,7 @@ import BctVerif.Lemmas.BetweenFwd5
 import BctVerif.Lemmas.BetweenBfs2
 import BctVerif.Lemmas.BetweenBin3
 import BctVerif.Lemmas.BetweenRat
+import BctVerif.Lemmas.BetweenNode
 
 /-!
 # C08 — betweenness counts exactly the shortest paths through each node and connection
@@ -211,9 +212,11 @@ theorem sigma_recurrence (s t : Fin n) :
 
 The statement-by-statement models of `centrality.py` return exactly the definition-level values:
 
-* `betweenness_wei`, `edge_betweenness_wei` (Dijkstra loop with `D`, `NP`, `P`, `S`, `G1`, the queue
-  `Q`/`q` with the unreachable nodes first, dependency accumulation): every size, every
-  connection-length matrix (`brandes_wei_correct`, `betweenness_wei_correct`);
+* `edge_betweenness_wei` (`brandes true`: Dijkstra loop with `D`, `NP`, `P`, `S`, `G1`, the queue
+  `Q`/`q` with the unreachable nodes first, dependency accumulation into `BC` and `EBC`) and
+  `betweenness_wei` (`betweennessWei`: same forward pass, own accumulation without `EBC`): every
+  size, every natural-number length matrix, hence every rational one by section 6
+  (`brandes_wei_correct`, `betweennessWei_correct`);
 * `edge_betweenness_bin` (BFS loop, same queue): every binary matrix
   (`edge_betweenness_bin_correct`, by lock-step simulation of the weighted loop);
 * `betweenness_bin` (matrix powers `NPd`, `NSPd`, `NSP`, `L`, back-propagation `DP`): every binary
@@ -227,7 +230,18 @@ Python source (checked on every run against the real routines). -/
 theorem brandes_wei_correct : brandes true L = .ok (ebcSpec L, bcSpec L) :=
   Bct.Between.brandes_wei_correct L
 
-/-- **`betweenness_wei` model = definition** (the driver takes the `BC` component of the same loop) -/
+/-- **`betweenness_wei` model = definition.**  `betweennessWei` is the node routine's own model
+(shared forward pass `weiLoop`, which is textually identical in the two Python routines; own
+back-propagation `backOuterN`/`backInnerN` without `EBC`), run by the driver op `betweenness_wei` -/
+theorem betweennessWei_correct : betweennessWei L = .ok (bcSpec L) :=
+  Bct.Between.betweennessWei_correct L
+
+/-- **the node vector returned by `edge_betweenness_wei` equals `betweenness_wei`'s result** — a
+statement about two different models (`brandes true` with `EBC`, `betweennessWei` without) -/
+theorem edge_node_vector_wei : (brandes true L).map Prod.snd = betweennessWei L :=
+  (betweennessWei_eq L).symm
+
+/-- the node component of the edge model (kept in this form for C10) -/
 theorem betweenness_wei_correct : (brandes true L).map Prod.snd = .ok (bcSpec L) := by
   rw [brandes_wei_correct]; rfl
 
@@ -251,7 +265,13 @@ theorem matrix_power_counts (hbin : ∀ i j, L.get i j ≤ 1) (k : ℕ) (s t : F
     (((dist L).get s t = none ∨ ∃ j, (dist L).get s t = some j ∧ k < j) → wc L k s t = 0) :=
   wc_spec hbin k s t
 
-/-- the node vector returned by the edge routines' models is the node routine's (`bcSpec`) -/
+/-- **the node vector returned by `edge_betweenness_bin` equals `betweenness_bin`'s result** (BFS
+model vs matrix-power model), binary matrices with empty diagonal -/
+theorem edge_node_vector_bin (hbin : ∀ i j, L.get i j ≤ 1) (hdiag : ∀ i, L.get i i = 0) :
+    (brandes false L).map Prod.snd = betweennessBin L := by
+  rw [brandes_bin_correct L hbin, Bct.Between.betweennessBin_correct hbin hdiag]; rfl
+
+/-- the node vector returned by the edge routines' models is `bcSpec` -/
 theorem edge_routines_node_vector (hbin : ∀ i j, L.get i j ≤ 1) :
     (brandes false L).map Prod.snd = .ok (bcSpec L) ∧ (brandes true L).map Prod.snd = .ok (bcSpec L) := by
   rw [edge_betweenness_bin_correct L hbin, brandes_wei_correct]; exact ⟨rfl, rfl⟩
@@ -289,7 +309,7 @@ The models run on natural-number length matrices.  A rational length matrix `ℓ
 numerators `L` over a common denominator `den > 0` (`lenQ L den i j = L i j / den`; every finite
 rational matrix has this form).  Its minimum-length walks are those of `L`, so the definition-level
 betweenness with respect to `ℓ` is `bcSpec L` / `ebcSpec L` — which the weighted models return by
-`brandes_wei_correct`.  The driver's `den=` token relies on exactly this. -/
+`brandes_wei_correct` / `betweennessWei_correct` applied to the numerators.  The driver's `den=` token relies on exactly this. -/
 
 theorem rational_min_walks (den : ℕ) (hden : 0 < den) (s t : Fin n) (p : List (Fin n)) :
     IsMinQ (lenQ L den) s t p ↔ p ∈ MinW L s t :=
@@ -332,10 +352,6 @@ theorem ebc_spec_rational (den : ℕ) (hden : 0 < den) (u w : Fin n) :
   have h2 : ({p | IsMinQ (lenQ L den) s t p} : Set (List (Fin n))) = MinW L s t := by
     ext p; simp only [MinW, Set.mem_ofPred_eq, isMinQ_iff hden]
   rw [h1, h2]
-
-/-- the weighted models on the numerators return the betweenness of the rational lengths -/
-theorem brandes_wei_rational (den : ℕ) (_hden : 0 < den) :
-    brandes true L = .ok (ebcSpec L, bcSpec L) := brandes_wei_correct L
 
 /-- betweenness is invariant under multiplying all lengths by a positive integer -/
 theorem scale_invariant (c : ℕ) (hc : 0 < c) :
@@ -420,6 +436,7 @@ example : (List.finRange 4).all (fun u => match fwd diamond false u with
     | .ok st => fwdOKb diamond u st | .error _ => false) = true := by decide
 example : (brandes true diamond).toOption.map (fun r => r.2[(1 : Fin 4)]) = some (1 / 2) := by decide +kernel
 example : (brandes true wtriangle).toOption.map (fun r => r.1.get 0 2) = some (1 / 2) := by decide +kernel
+example : (betweennessWei diamond).toOption.map (fun r => r[(1 : Fin 4)]) = some (1 / 2) := by decide +kernel
 example : (brandes false diamond).toOption.map (fun r => r.1.get 0 1) = some (3 / 2) := by decide +kernel
 -- betweennessBin_correct / matrix_power_counts: hypotheses satisfiable, non-trivial value
 example : (∀ i j, diamond.get i j ≤ 1) ∧ (∀ i, diamond.get i i = 0) := by decide
